@@ -87,6 +87,15 @@ def build(dirs, obsfile="ps.obs"):
     return "\n".join(parts)
 
 
+def paths(i):
+    """Structured summary of a mismatch: hex call paths of the missing, the
+    extra and all the semantics' observations, and whether the outs agree."""
+    return ("Definition P_%d := Eval vm_compute in (map (fun o => hex (fst (fst o))) (v_missing v_%d), "
+            "map (fun o => hex (fst (fst o))) (v_extra v_%d), "
+            "map (fun i => hex (join_path (i_path i))) (snd (eval_program prog_%d (spec_oracle spec_%d) fuel_default fuel_default)), "
+            "v_outs_ok v_%d).\nPrint P_%d.\n" % (i, i, i, i, i, i, i))
+
+
 def detail(i):
     return "Definition D_%d := Eval vm_compute in show v_%d.\nPrint D_%d.\n" % (i, i, i)
 
